@@ -364,8 +364,19 @@ def run_crash(case: dict, trace: bool = False, prop: str = 'C15') -> dict:
     model = MailModel(1)
     model.keyword_boxes = {'INBOX'}
     subscribed: set = set()
-    ledger: dict = {}       # (mailbox, uid) -> token, every UID ever acked
-    ledger_at: dict = {}    # (mailbox, uid) -> index of the command that did
+    # every acknowledgement "this UID of this mailbox name is this token",
+    # with the span of commands during which the name meant that mailbox:
+    # [name, uid, token, since, until]
+    records: list = []
+    current: dict = {}      # (mailbox, uid) -> its open record
+
+    def ledger_for(j: int, strictly_before: bool = False) -> dict:
+        out = {}
+        for name, uid, token, since, until in records:
+            if (since < j if strictly_before else since <= j) and \
+                    (until is None or j <= until):
+                out[(name, uid)] = token
+        return out
     sent: dict = {}         # token -> bytes
     uidvals: dict = {}
     states = []
@@ -407,10 +418,9 @@ def run_crash(case: dict, trace: bool = False, prop: str = 'C15') -> dict:
                     if model.box(act['mailbox']) is None:
                         # a new mailbox under a name that may have been used
                         # before (renamed away): its UIDs start afresh
-                        for k in [k for k in ledger
+                        for k in [k for k in current
                                   if k[0] == act['mailbox']]:
-                            del ledger[k]
-                            ledger_at.pop(k, None)
+                            current.pop(k)[4] = i
                         uidvals.pop(act['mailbox'], None)
                     model.create(act['mailbox'])
                 elif act['kind'] == 'rename':
@@ -426,10 +436,13 @@ def run_crash(case: dict, trace: bool = False, prop: str = 'C15') -> dict:
                             # lives under the new one
                             # (the old entries stay for the images taken
                             # before the rename)
-                            for k in [k for k in ledger if k[0] == n]:
-                                ledger[(box.name, k[1])] = ledger[k]
-                                ledger_at[(box.name, k[1])] = \
-                                    ledger_at.get(k, i)
+                            for k in [k for k in current if k[0] == n]:
+                                old_rec = current.pop(k)
+                                old_rec[4] = i
+                                new_rec = [box.name, k[1], old_rec[2], i,
+                                           None]
+                                records.append(new_rec)
+                                current[(box.name, k[1])] = new_rec
                             if n in uidvals:
                                 uidvals[box.name] = uidvals[n]
                 elif act['kind'] == 'subscribe':
@@ -447,8 +460,10 @@ def run_crash(case: dict, trace: bool = False, prop: str = 'C15') -> dict:
             for name, box in model.boxes.items():
                 for m in box.msgs:
                     if m.uid is not None:
-                        ledger.setdefault((name, m.uid), m.token)
-                        ledger_at.setdefault((name, m.uid), i)
+                        if (name, m.uid) not in current:
+                            rec_ = [name, m.uid, m.token, i, None]
+                            records.append(rec_)
+                            current[(name, m.uid)] = rec_
             states.append(model_state(model, subscribed))
             if cl.conn.done:
                 # e.g. BYE after the selected mailbox was renamed away
@@ -479,12 +494,11 @@ def run_crash(case: dict, trace: bool = False, prop: str = 'C15') -> dict:
             rec = recover(path, layout, what, active=prop == 'C04')
             checked += 1
             if prop == 'C04':
-                verdict = judge_uids(rec, {k: v for k, v in ledger.items()
-                                           if ledger_at[k] < j},
-                                     uidvals, what)
+                verdict = judge_uids(rec, ledger_for(j, True), uidvals,
+                                     what)
             else:
-                verdict = judge(rec, before, after, ledger, sent, uidvals,
-                                what)
+                verdict = judge(rec, before, after, ledger_for(j), sent,
+                                uidvals, what)
             shutil.rmtree(path, ignore_errors=True)
             if verdict is not None:
                 clause, detail = verdict
